@@ -10,6 +10,7 @@ CONSTANTS
   MaxFaults = 1
   StoreMetaFirst = FALSE
   KillWaits = TRUE
+  GcProtectsMergeSources = TRUE
   ReplaceStaleDel = TRUE
 INVARIANT CrashSafe
 INVARIANT CrashDurable
@@ -20,6 +21,7 @@ INVARIANT GcComplete
 PROPERTY GcTight
 INVARIANT NeverDeletesNeeded
 INVARIANT NeverDeletesBuilding
+INVARIANT MergeSourcesReadable
 INVARIANT LemmaSafe
 INVARIANT LemmaOrphan
 CHECK_DEADLOCK FALSE
